@@ -160,6 +160,9 @@ pub enum Op {
     WriteSboms { name: u8, sboms: Vec<(u8, Vec<u8>)> },
     WriteExecD { name: u8, progs: Vec<(String, Vec<u8>)> },
     WritePlain { name: u8, path: String, data: Vec<u8> },
+    /// an exec.d write that FAILS (one source file does not exist) — only used by C12's operations: the state it leaves
+    /// behind is not modelled, a following successful write has to clean up after it
+    WriteExecDMissing { name: u8, progs: Vec<(String, Vec<u8>)> },
     /// a symbolic link created by the buildpack inside the layer (target may dangle)
     WriteLink { name: u8, path: String, target: String },
     /// the next write to this layer goes through the PREVIOUS LayerRef of the current build (if the layer was requested
@@ -188,6 +191,7 @@ fn op_json(o: &Op) -> Value {
         Op::WriteExecD { name, progs } => json!({"write_exec_d": {"name": name, "progs": progs.iter().map(|(n, d)| json!([n, bytes_to_json(d)])).collect::<Vec<_>>()}}),
         Op::WritePlain { name, path, data } => json!({"write_plain": {"name": name, "path": path, "data": bytes_to_json(data)}}),
         Op::UseOlderRef { name } => json!({"use_older_ref": {"name": name}}),
+        Op::WriteExecDMissing { name, progs } => json!({"write_exec_d_missing": {"name": name, "progs": progs.iter().map(|(n, d)| json!([n, bytes_to_json(d)])).collect::<Vec<_>>()}}),
         Op::WriteLink { name, path, target } => json!({"write_link": {"name": name, "path": path, "target": target}}),
         Op::Restore => json!("restore"),
     }
@@ -214,6 +218,7 @@ fn op_from_json(v: &Value) -> Op {
         "write_env" => Op::WriteEnv { name, entries: entries_from_json(&x["entries"]) },
         "write_sboms" => Op::WriteSboms { name, sboms: x["sboms"].as_array().unwrap().iter().map(|p| (p[0].as_u64().unwrap() as u8, json_to_bytes(&p[1]))).collect() },
         "use_older_ref" => Op::UseOlderRef { name },
+        "write_exec_d_missing" => Op::WriteExecDMissing { name, progs: x["progs"].as_array().unwrap().iter().map(|p| (p[0].as_str().unwrap().to_string(), json_to_bytes(&p[1]))).collect() },
         "write_link" => Op::WriteLink { name, path: x["path"].as_str().unwrap().into(), target: x["target"].as_str().unwrap().into() },
         "write_exec_d" => Op::WriteExecD { name, progs: x["progs"].as_array().unwrap().iter().map(|p| (p[0].as_str().unwrap().to_string(), json_to_bytes(&p[1]))).collect() },
         _ => Op::WritePlain { name, path: x["path"].as_str().unwrap().into(), data: json_to_bytes(&x["data"]) },
@@ -589,6 +594,7 @@ pub fn run_history_in(root: &Path, h: &[Op], names: &[&str], cleanup: bool) -> H
                 Op::UseOlderRef { name } => {
                     use_older.insert(*name % names.len() as u8);
                 }
+                Op::WriteExecDMissing { .. } => {}
                 Op::Restore => {
                     out.classes.push("restore");
                     model.restore();
@@ -939,6 +945,16 @@ pub fn apply_ops(bc: &BuildContext<HB>, ops: &[Op], names: &[&str], side: &Path)
     for op in ops {
         match op {
             Op::Restore | Op::UseOlderRef { .. } => {}
+            Op::WriteExecDMissing { name, progs } => {
+                if let Some(lr) = refs.get(&(*name % names.len() as u8)) {
+                    let m: BTreeMap<String, Vec<u8>> = progs.iter().cloned().collect();
+                    let mut srcs: Vec<(String, PathBuf)> = m.iter().map(|(n, d)| (n.clone(), exec_d_source(side, n, d))).collect();
+                    srcs.push(("zz-missing-program".to_string(), side.join("this-source-file-does-not-exist")));
+                    if lr.w_execd(srcs).is_ok() {
+                        return Err("write_exec_d_programs with a missing source file reported success".to_string());
+                    }
+                }
+            }
             Op::Cached { name, build, launch, m, on_restored, on_invalid } => {
                 let key = *name % names.len() as u8;
                 let ln: LayerName = names[key as usize].parse().map_err(|_| "layer name".to_string())?;
@@ -1039,5 +1055,19 @@ pub fn setup_history_strategy(nnames: u8) -> impl Strategy<Value = Vec<Op>> {
         }
         h.push(Op::Restore);
         h
+    })
+}
+
+/// request, an exec.d write that fails (missing source), then further writes incl. a successful exec.d write
+pub fn group_with_failed_execd_strategy(nnames: u8) -> impl Strategy<Value = Vec<Op>> {
+    (errorless_group_strategy(nnames), proptest::collection::vec((prop_oneof![Just("a".to_string()), Just("b c".to_string())], small_bytes()), 1..3), proptest::collection::vec((prop_oneof![Just("fresh".to_string()), Just("a".to_string())], small_bytes()), 1..3)).prop_map(|(mut g, stale, fresh)| {
+        let name = match &g[0] {
+            Op::Cached { name, .. } | Op::Uncached { name, .. } => *name,
+            _ => 0,
+        };
+        g.truncate(1);
+        g.push(Op::WriteExecDMissing { name, progs: stale });
+        g.push(Op::WriteExecD { name, progs: fresh });
+        g
     })
 }
